@@ -45,6 +45,8 @@ func main() {
 		os.Exit(cmdWorker(os.Args[2:]))
 	case "replay":
 		os.Exit(cmdReplay(os.Args[2:]))
+	case "racepass":
+		os.Exit(cmdRacePass(os.Args[2:]))
 	case "selftest":
 		os.Exit(cmdSelftest())
 	case "list":
